@@ -3,7 +3,12 @@ from pyvc.cdef import Contract, LoopSpec
 import specs.refsem as R
 from contracts.comparisons import _enc, _dec, mk_packet
 
-SCHEMA = {}
+SCHEMA = {
+    'PolynomialCoefficient': {'coefficient': 'real', 'exponent': 'int'},
+    'PolynomialCalibrator': {'coefficients': ('list', ('rec', 'PolynomialCoefficient'))},
+    'SplinePoint': {'raw': 'real', 'calibrated': 'real'},
+    'SplineCalibrator': {'points': ('list', ('rec', 'SplinePoint')), 'order': 'int', 'extrapolate': 'bool'},
+}
 NATIVE_ENV = {k: getattr(R, k) for k in dir(R) if not k.startswith('_')}
 
 PENDING = ("contract evaluated by the bounded native stand-in only (exact-rational reference semantics in "
@@ -24,7 +29,9 @@ def _gen_spline(rng, tier, variant):
         queries = list(xs) + [xs[0] - 1, xs[-1] + 2, xs[0] - 0.5, xs[-1] + 0.25] + \
             [(a + b) / 2 for a, b in zip(xs, xs[1:])] + [xs[0] + 0.25]
         for q in queries:
-            yield {'pts': shuffled, 'order': order, 'ext': ext, 'q': _enc(float(q)) if rng.random() < 0.5 else _enc(q)}
+            if variant == 'int' and q != int(q):
+                continue
+            yield {'pts': shuffled, 'order': order, 'ext': ext, 'q': (_enc(float(q)) if variant != 'int' else int(q))}
 
 
 def _build_spline(r):
@@ -53,24 +60,107 @@ def _build_poly(r):
     return {'make': make}
 
 
+P_ = 'self.points'
+SORTED = (f'forall(lambda i: forall(lambda j: at({P_}, i).raw < at({P_}, j).raw, i + 1, len({P_})), 0, len({P_}))')
+FIRST = f'at({P_}, 0)'
+LAST = f'at({P_}, len({P_}) - 1)'
+Q = 'toreal(query_point)'
+INSIDE = f'{FIRST}.raw <= {Q} and {Q} <= {LAST}.raw'
+
+
+def _spline_variants():
+    return {'int': {'params': {'query_point': 'int'}}, 'float': {'params': {'query_point': 'real'}}}
+
+
+def _build_spline_q(r):
+    def make():
+        from space_packet_parser.xtce.calibrators import SplineCalibrator, SplinePoint
+        c = SplineCalibrator([SplinePoint(raw=a, calibrated=b) for a, b in r['pts']], order=r['order'],
+                             extrapolate=r['ext'])
+        return {'self': c, 'query_point': _dec(r['q'])}
+    return {'make': make}
+
+
 CONTRACTS = [
+    Contract(
+        target='xtce.calibrators.SplineCalibrator._zero_order_spline_interp',
+        props=['C08', 'C01'],
+        params={'self': ('rec', 'SplineCalibrator')},
+        variants=_spline_variants(),
+        returns='real',
+        # points are sorted by raw on construction; the property speaks of strictly increasing raw coordinates
+        requires=[f'len({P_}) >= 1', SORTED],
+        ensures={
+            # step interpolation over the CLOSED range: the value of the last point not above q (the last knot included)
+            'inside': (f'implies({INSIDE}, exists(lambda i: at({P_}, i).raw <= {Q} and '
+                       f'(i == len({P_}) - 1 or {Q} < at({P_}, i + 1).raw) and result == at({P_}, i).calibrated, 0, len({P_})))'),
+            'above': f'implies({Q} > {LAST}.raw, result == {LAST}.calibrated)',
+            'below': f'implies({Q} < {FIRST}.raw, result == {FIRST}.calibrated)',
+        },
+        raises={'CalibrationError': f'not ({INSIDE}) and not self.extrapolate'},
+        modifies=[],
+        native={'gen': _gen_spline, 'build': _build_spline_q},
+    ),
+    Contract(
+        target='xtce.calibrators.SplineCalibrator._first_order_spline_interp',
+        props=['C08', 'C01'],
+        params={'self': ('rec', 'SplineCalibrator')},
+        variants=_spline_variants(),
+        returns='real',
+        requires=[f'len({P_}) >= 2', SORTED],
+        ensures={
+            # linear interpolation on the chord through the two points around q; the last knot gives its own value
+            'inside': (f'implies({INSIDE}, exists(lambda i: at({P_}, i).raw <= {Q} and '
+                       f'((i == len({P_}) - 1 and result == at({P_}, i).calibrated) or '
+                       f' (i < len({P_}) - 1 and {Q} < at({P_}, i + 1).raw and '
+                       f'  result == chord(at({P_}, i), at({P_}, i + 1), {Q}))), 0, len({P_})))', ['__proof__']),
+            'above': (f'implies({Q} > {LAST}.raw, result == chord(at({P_}, len({P_}) - 2), {LAST}, {Q}))', ['__proof__']),
+            'below': (f'implies({Q} < {FIRST}.raw, result == chord({FIRST}, at({P_}, 1), {Q}))', ['__proof__']),
+            'value_exact': ('close(result, ref_spline(self.points, 1, self.extrapolate, query_point))', ['__native__']),
+        },
+        raises={'CalibrationError': f'not ({INSIDE}) and not self.extrapolate'},
+        modifies=[],
+        native={'gen': _gen_spline, 'build': _build_spline_q},
+    ),
     Contract(
         target='xtce.calibrators.SplineCalibrator.calibrate',
         props=['C08', 'C01'],
-        params={}, native_only=PENDING,
-        requires=['len(self.points) >= 2'],
-        ensures={'value': 'close(result, ref_spline(self.points, self.order, self.extrapolate, uncalibrated_value))'},
-        raises={'CalibrationError': ("outcome(ref_spline(self.points, self.order, self.extrapolate, uncalibrated_value))"
-                                     " == 'CalibrationError'")},
+        params={'self': ('rec', 'SplineCalibrator')},
+        variants={'int': {'params': {'uncalibrated_value': 'int'}}, 'float': {'params': {'uncalibrated_value': 'real'}}},
+        returns='real',
+        requires=[f'len({P_}) >= 1', 'self.order == 0 or self.order == 1', f'self.order == 0 or len({P_}) >= 2', SORTED],
+        ensures={
+            # proved from the two interpolation contracts (dispatch on the order)
+            'order0_inside': ('implies(self.order == 0 and ' + INSIDE.replace('query_point', 'uncalibrated_value') + ', ' +
+                              f'exists(lambda i: at({P_}, i).raw <= toreal(uncalibrated_value) and '
+                              f'(i == len({P_}) - 1 or toreal(uncalibrated_value) < at({P_}, i + 1).raw) and '
+                              f'result == at({P_}, i).calibrated, 0, len({P_})))', ['__proof__']),
+            'order1_inside': ('implies(self.order == 1 and ' + INSIDE.replace('query_point', 'uncalibrated_value') + ', ' +
+                              f'exists(lambda i: at({P_}, i).raw <= toreal(uncalibrated_value) and '
+                              f'((i == len({P_}) - 1 and result == at({P_}, i).calibrated) or '
+                              f' (i < len({P_}) - 1 and toreal(uncalibrated_value) < at({P_}, i + 1).raw and '
+                              f'  result == chord(at({P_}, i), at({P_}, i + 1), toreal(uncalibrated_value)))), 0, len({P_})))', ['__proof__']),
+            # checked natively against the exact-rational reference (closed range, every knot, extrapolation)
+            'value_exact': ('close(result, ref_spline(self.points, self.order, self.extrapolate, uncalibrated_value))',
+                            ['__native__']),
+        },
+        raises={'CalibrationError': ('not (' + INSIDE.replace('query_point', 'uncalibrated_value') + ') and not self.extrapolate')},
         modifies=[],
         native={'gen': _gen_spline, 'build': _build_spline},
     ),
     Contract(
         target='xtce.calibrators.PolynomialCalibrator.calibrate',
         props=['C08', 'C01'],
-        params={}, native_only=PENDING,
+        params={'self': ('rec', 'PolynomialCalibrator')},
+        variants={'int': {'params': {'uncalibrated_value': 'int'}}, 'float': {'params': {'uncalibrated_value': 'real'}}},
+        returns='real',
         requires=[],
-        ensures={'value': 'close(result, ref_poly(self.coefficients, uncalibrated_value))'},
+        ensures={
+            # PROVED over the reals (S3): the polynomial sum a_i * x**n_i
+            'value': ('result == poly_value(self.coefficients, uncalibrated_value)', ['__proof__']),
+            # checked natively against exact rational arithmetic (up to float rounding)
+            'value_exact': ('close(result, ref_poly(self.coefficients, uncalibrated_value))', ['__native__']),
+        },
         modifies=[],
         native={'gen': _gen_poly, 'build': _build_poly},
     ),
